@@ -100,6 +100,7 @@ class BusDecoder:
         self.bits_checked = 0
         self.ss = 0
         self.tentative = None
+        self.periods_checked = 0
 
     def signals(self):
         return [self.top.scl, self.top.sda, self.top.sda_m]
@@ -113,6 +114,8 @@ class BusDecoder:
                 if scl:
                     if self.scl_fall is not None and c - self.scl_fall < T:
                         V.add(n + "/scl-low-short", "SCL low for %d cycles, programmed half period %d" % (c - self.scl_fall, T), cycle=c)
+                    elif self.strict_bytes and self.in_txn and self.nbits % 9 != 0 and self.scl_fall is not None and c - self.scl_fall != T:
+                        V.add(n + "/scl-period", "SCL low for %d cycles inside a byte, programmed half period %d" % (c - self.scl_fall, T), cycle=c)
                     self.scl_rise = c
                     self.tentative = ("b", sda, c) if self.in_txn else None     # a bit counts once SCL fell again with SDA unchanged
                 else:
@@ -120,6 +123,9 @@ class BusDecoder:
                         V.add(n + "/scl-high-short", "SCL high for %d cycles, programmed half period %d" % (c - self.scl_rise, T), cycle=c)
                     self.scl_fall = c
                     if self.tentative is not None:
+                        if self.strict_bytes and c - self.scl_rise != T:
+                            V.add(n + "/scl-period", "SCL high for %d cycles on a data bit, programmed half period %d" % (c - self.scl_rise, T), cycle=c)
+                        self.periods_checked += 1
                         self.events.append(self.tentative)
                         self.tentative = None
                         self.nbits += 1
@@ -342,6 +348,7 @@ def polite_case(col, case):
     i2c = top.dut.i2c
     tr = Tracer([("scl", top.scl), ("sda", top.sda), ("sda_m", top.sda_m), ("slave_sda", top.slave_sda), ("idle", i2c.idle),
                  ("start", i2c.start), ("stop", i2c.stop), ("write", i2c.write), ("read", i2c.read)], depth=60)
+    viol.tracer = tr
     ncmd_max = case["n"] * (7 if legal else 1) + 2
     cap = ncmd_max * (bound + 2 * T + 12) + 200
     b = Bench(top, cap=cap, drain=2 * T + 4)
@@ -427,6 +434,7 @@ def overlap_case(col, case):
     i2c = top.dut.i2c
     tr = Tracer([("scl", top.scl), ("sda", top.sda), ("sda_m", top.sda_m), ("idle", i2c.idle),
                  ("start", i2c.start), ("stop", i2c.stop), ("write", i2c.write), ("read", i2c.read)], depth=60)
+    viol.tracer = tr
     end = {"c": None, "idle_at": None}
 
     class IdleWatch:
@@ -465,6 +473,9 @@ def overlap_case(col, case):
     if not all(any(g == w for w in it) for g in got):
         viol.add(name + "/spurious-start-stop", "START/STOP conditions on the bus %s are not a subsequence of the commanded ones %s"
                  % ("".join(got), "".join(want)), commands="".join(cmds))
+    # one mechanism: a command strobe while the bit machine is busy clocks it early
+    cut = ("/scl-low-short", "/scl-high-short", "/start-hold", "/start-setup", "/stop-setup")
+    viol.items = [((name + "/phase-cut-short-by-command") if k.endswith(cut) else k, w, x) for k, w, x in viol.items]
     viol.flush(col, case, tr, extra={"load": load, "commands": "".join(cmds)})
     col.case_done(case, nontrivial=len(cmds) >= 4, sample=None)
 
@@ -473,7 +484,7 @@ def cases(tier, seed):
     q = tier == "quick"
     out = []
     k = 0
-    for rep in range(1 if q else 5):
+    for rep in range(3 if q else 15):
         for load in (1, 2, 3, 4, 7, 12):
             out.append({"cls": "i2c", "seed": "%d/C19/i2c/%d" % (seed, k), "kind": "legal", "load": load,
                         "n": max(2, int((40 if q else 80) / (load + 1)))})
@@ -481,7 +492,7 @@ def cases(tier, seed):
             out.append({"cls": "i2c", "seed": "%d/C19/i2c/%d" % (seed, k), "kind": "any", "load": load,
                         "n": max(6, int((100 if q else 200) / (load + 1)))})
             k += 1
-    for rep in range(1 if q else 4):
+    for rep in range(3 if q else 12):
         for load in (1, 3, 6):
             out.append({"cls": "i2c_overlap", "seed": "%d/C19/i2c_overlap/%d" % (seed, k), "load": load, "n": 12})
             k += 1
